@@ -668,7 +668,9 @@ def run(ctx):
             sc = SCEN[name]
             nX, nY0, _ = calib[name]
             for i in range(per):
-                if (i & 0xf) == 0 and ctx.expired():
+                # the quick tier's share of samples per scenario is a guaranteed minimum (a loaded run that skipped this family
+                # missed seeded change C20-i); beyond it - the thorough tier - the family obeys the wall budget
+                if i >= SAMPLES_P34['quick'] // ctx.nshards + 1 and (i & 0xf) == 0 and ctx.expired():
                     break
                 pX, pY = rnd.choice(sc['probes']), rnd.choice(sc['probes'])
                 if rnd.random() < 0.5:
